@@ -1,70 +1,124 @@
-"""C03 fragments: ring cursor, size, capacity, sample index bounds / maps, done mask (buffers.py).
-start/end patterns anchor on stable text only (assigned name, keyword + first identifier), never on the
-operator or constant the fragment captures."""
+"""C03 fragments (buffers.py): ring cursor, size, capacity, the bounds of every random draw, the index maps, the gather
+indices of _get_samples, the slots and sources of every write in add(), the done mask; RolloutBuffer cursor / reset / get.
+start/end patterns anchor on stable text only (assigned name, keyword + first identifier); bounds, operators and indices
+are picked as sub-expressions (kind callarg / subscript_index / subexpr) so that changing them changes the fragment."""
 FILE = "stable_baselines3/common/buffers.py"
 
+_SELF = {"self.full": "full", "self.buffer_size": "buffer_size", "self.pos": "pos", "self.n_envs": "n_envs"}
 _CUR = dict(
-    start=r"^self\.pos \+= ", end=r"^if (not )?\(?self\.pos\b",
-    inputs=[("pos", "Z"), ("buffer_size", "Z"), ("full", "bool")],
-    subst={"self.pos": "pos", "self.buffer_size": "buffer_size", "self.full": "full"},
+    start=r"^self\.pos [-+*/]= ", end=r"^if (not )?\(?self\.pos\b",
+    inputs=[("pos", "Z"), ("buffer_size", "Z"), ("full", "bool")], subst=_SELF,
     outputs=[("pos", "Z"), ("full", "bool")],
 )
-_CAP = dict(start=r"^self\.buffer_size = ", end=None, kind="expr", ret="Z",
-            inputs=[("buffer_size", "Z"), ("n_envs", "Z")])
-# the arithmetic combination of dones[...] and timeouts[...] (whatever the operators), without the
-# surrounding reshape / to_torch / normalize calls
+_CAP = dict(start=r"^self\.buffer_size = ", end=None, kind="expr", ret="Z", inputs=[("buffer_size", "Z"), ("n_envs", "Z")])
+_RAND = r"np\.random\.randint"
+_BOUND_IN = [("full", "bool"), ("buffer_size", "Z"), ("pos", "Z"), ("n_envs", "Z"), ("upper_bound", "Z")]
+# the arithmetic combination of dones[...] and timeouts[...] (whatever the operators and the gather indices, which have
+# their own fragments), without the surrounding reshape / to_torch / normalize calls
 _MASK_PICK = r"(?!.*(reshape|normalize|to_torch)).*self\.(dones|timeouts)\[.*self\.(dones|timeouts)\[.*"
 _MASK = dict(kind="subexpr", pick=_MASK_PICK, ret="Z", inputs=[("d", "Z"), ("t", "Z")],
-             subst={"self.dones[batch_inds, env_indices]": "d", "self.timeouts[batch_inds, env_indices]": "t"})
-_SELF = {"self.full": "full", "self.buffer_size": "buffer_size", "self.pos": "pos"}
+             subst_re={r"self\.dones\[[^\]]*\]": "d", r"self\.timeouts\[[^\]]*\]": "t"})
+_SRC = {"obs": 1, "next_obs": 2, "action": 3, "reward": 4, "done": 5}
+
+
+def _bound(name, qual, start, arg, **kw):
+    return dict(name=name, qual=qual, start=start, end=None, kind="callarg", call=_RAND, arg=arg, ret="Z", inputs=_BOUND_IN, subst=_SELF, **kw)
+
+
+def _gather(name, qual, start, array, axis, **kw):
+    return dict(name=name, qual=qual, start=start, end=None, kind="subscript_index", array=array, axis=axis, ret="Z",
+                inputs=[("batch_inds", "Z"), ("env_indices", "Z"), ("buffer_size", "Z")], subst={"self.buffer_size": "buffer_size"}, **kw)
+
+
+def _slot(name, qual, start, array, **kw):
+    return dict(name=name, qual=qual, start=start, end=None, kind="subscript_index", array=array, axis=0, ret="Z",
+                inputs=[("pos", "Z"), ("buffer_size", "Z")], subst=_SELF, **kw)
+
+
+def _src(name, qual, start, **kw):
+    return dict(name=name, qual=qual, start=start, end=None, kind="callarg", call=r"np\.array", arg=0, names=_SRC, inputs=[], **kw)
+
+
+_RB, _DRB, _GS, _DGS = "ReplayBuffer.add", "DictReplayBuffer.add", "ReplayBuffer._get_samples", "DictReplayBuffer._get_samples"
 
 SPECS = [
     # add(): advance the write cursor, wrap and set `full`
-    dict(name="rb_add_cursor", qual="ReplayBuffer.add", **_CUR),
-    dict(name="dictrb_add_cursor", qual="DictReplayBuffer.add", **_CUR),
-    # size()
-    dict(name="rb_size", qual="BaseBuffer.size", start=None, end=None, ret="Z",
-         inputs=[("full", "bool"), ("buffer_size", "Z"), ("pos", "Z")], subst=_SELF),
-    # capacity = max(buffer_size // n_envs, 1)
+    dict(name="rb_add_cursor", qual=_RB, **_CUR),
+    dict(name="dictrb_add_cursor", qual=_DRB, **_CUR),
+    # size(), capacity
+    dict(name="rb_size", qual="BaseBuffer.size", start=None, end=None, ret="Z", inputs=[("full", "bool"), ("buffer_size", "Z"), ("pos", "Z")], subst=_SELF),
     dict(name="rb_capacity", qual="ReplayBuffer.__init__", **_CAP),
     dict(name="dictrb_capacity", qual="DictReplayBuffer.__init__", **_CAP),
-    # BaseBuffer.sample(): indices are drawn from [0, upper_bound) and used as they are
+    # BaseBuffer.sample(): bounds of the index draw, the draw is used as it is
     dict(name="rb_upper_bound", qual="BaseBuffer.sample", start=r"^upper_bound = ", end=None, kind="expr", ret="Z",
          inputs=[("full", "bool"), ("buffer_size", "Z"), ("pos", "Z")], subst=_SELF),
+    _bound("rb_base_lo", "BaseBuffer.sample", r"^batch_inds = ", 0),
+    _bound("rb_base_hi", "BaseBuffer.sample", r"^batch_inds = ", 1),
     dict(name="rb_base_index", qual="BaseBuffer.sample", start=r"^batch_inds = ", end=None, kind="expr", ret="Z",
-         inputs=[("draw", "Z")], subst={"np.random.randint(0, upper_bound, size=batch_size)": "draw"}),
-    # ReplayBuffer.sample(): which branch, and the index map of the two memory-optimised branches
-    # (draw_full / draw_notfull stand for randint(1, buffer_size) / randint(0, pos): the texts are pinned by subst)
+         inputs=[("draw", "Z")], subst_calls={_RAND: "draw"}),
+    # ReplayBuffer.sample(): which branch; bounds and index map of the two memory-optimised branches
     dict(name="rb_sample_not_memopt", qual="ReplayBuffer.sample", start=r"^if (not )?self\.optimize_memory_usage", end=None, kind="test",
          inputs=[("memopt", "bool")], subst={"self.optimize_memory_usage": "memopt"}),
+    _bound("rb_memopt_full_lo", "ReplayBuffer.sample", r"^batch_inds = ", 0, nth=0, of=2),
+    _bound("rb_memopt_full_hi", "ReplayBuffer.sample", r"^batch_inds = ", 1, nth=0, of=2),
+    _bound("rb_memopt_notfull_lo", "ReplayBuffer.sample", r"^batch_inds = ", 0, nth=1, of=2),
+    _bound("rb_memopt_notfull_hi", "ReplayBuffer.sample", r"^batch_inds = ", 1, nth=1, of=2),
     dict(name="rb_memopt_index", qual="ReplayBuffer.sample", start=r"^if (not )?self\.full", end=None,
-         inputs=[("full", "bool"), ("draw_full", "Z"), ("draw_notfull", "Z"), ("pos", "Z"), ("buffer_size", "Z")],
-         subst={"np.random.randint(1, self.buffer_size, size=batch_size)": "draw_full",
-                "np.random.randint(0, self.pos, size=batch_size)": "draw_notfull", **_SELF},
+         inputs=[("full", "bool"), ("draw", "Z"), ("pos", "Z"), ("buffer_size", "Z")], subst=_SELF, subst_calls={_RAND: "draw"},
          outputs=[("batch_inds", "Z")]),
-    # _get_samples(): slot of the next observation in the memory-optimised variant; done mask
-    dict(name="rb_memopt_next_index", qual="ReplayBuffer._get_samples", start=r"^next_obs = self\._normalize_obs\(self\.observations\[", end=None,
-         kind="subexpr", pick=r"[^\[\],]*batch_inds[^\[\],]*", ret="Z",
-         inputs=[("batch_inds", "Z"), ("buffer_size", "Z")], subst={"self.buffer_size": "buffer_size"}),
-    dict(name="rb_memopt_next_branch", qual="ReplayBuffer._get_samples", start=r"^if (not )?self\.optimize_memory_usage", end=None, kind="test",
+    # _get_samples(): bounds of the env-column draw
+    _bound("rb_env_lo", _GS, r"^env_indices = ", 0),
+    _bound("rb_env_hi", _GS, r"^env_indices = ", "high"),
+    _bound("dictrb_env_lo", _DGS, r"^env_indices = ", 0),
+    _bound("dictrb_env_hi", _DGS, r"^env_indices = ", "high"),
+    # _get_samples(): (slot, env) index of every gathered array
+    *[_gather(f"rb_gather_{nm}_{ax}", _GS, r"^data = ", rf"self\.{arr}", a)
+      for nm, arr in (("obs", "observations"), ("act", "actions"), ("done", "dones"), ("to", "timeouts"), ("rew", "rewards")) for ax, a in (("slot", 0), ("env", 1))],
+    _gather("rb_gather_next_slot", _GS, r"^next_obs = ", r"self\.next_observations", 0, nth=1, of=2),
+    _gather("rb_gather_next_env", _GS, r"^next_obs = ", r"self\.next_observations", 1, nth=1, of=2),
+    _gather("rb_memopt_next_index", _GS, r"^next_obs = ", r"self\.observations", 0, nth=0, of=2),
+    _gather("rb_memopt_next_env", _GS, r"^next_obs = ", r"self\.observations", 1, nth=0, of=2),
+    *[_gather(f"dictrb_gather_{nm}_{ax}", _DGS, r"^return DictReplayBufferSamples", rf"self\.{arr}", a)
+      for nm, arr in (("act", "actions"), ("done", "dones"), ("to", "timeouts"), ("rew", "rewards")) for ax, a in (("slot", 0), ("env", 1))],
+    _gather("dictrb_gather_obs_slot", _DGS, r"^obs_ = ", r"obs", 0),
+    _gather("dictrb_gather_obs_env", _DGS, r"^obs_ = ", r"obs", 1),
+    _gather("dictrb_gather_next_slot", _DGS, r"^next_obs_ = ", r"obs", 0),
+    _gather("dictrb_gather_next_env", _DGS, r"^next_obs_ = ", r"obs", 1),
+    dict(name="dictrb_gather_obs_source", qual=_DGS, start=r"^obs_ = ", end=None, kind="subexpr", pick=r"self\.\w*observations\.items\(\)",
+         names={"self.observations.items()": 1, "self.next_observations.items()": 2}, inputs=[]),
+    dict(name="dictrb_gather_next_source", qual=_DGS, start=r"^next_obs_ = ", end=None, kind="subexpr", pick=r"self\.\w*observations\.items\(\)",
+         names={"self.observations.items()": 1, "self.next_observations.items()": 2}, inputs=[]),
+    dict(name="rb_memopt_next_branch", qual=_GS, start=r"^if (not )?self\.optimize_memory_usage", end=None, kind="test",
          inputs=[("memopt", "bool")], subst={"self.optimize_memory_usage": "memopt"}),
-    dict(name="rb_done_mask", qual="ReplayBuffer._get_samples", start=r"^data = ", end=None, **_MASK),
-    dict(name="dictrb_done_mask", qual="DictReplayBuffer._get_samples", start=r"^return DictReplayBufferSamples", end=None, **_MASK),
-    # add(): where the memory-optimised variant writes next_obs; when timeouts are recorded
-    dict(name="rb_memopt_write_index", qual="ReplayBuffer.add", start=r"^self\.observations\[.*\] = np\.array\(next_obs\)", end=None,
-         kind="subexpr", pick=r"[^\[\],]*self\.pos[^\[\],]*", ret="Z",
-         inputs=[("pos", "Z"), ("buffer_size", "Z")], subst={"self.pos": "pos", "self.buffer_size": "buffer_size"}),
-    dict(name="rb_add_memopt_branch", qual="ReplayBuffer.add", start=r"^if (not )?self\.optimize_memory_usage", end=None, kind="test",
+    dict(name="rb_done_mask", qual=_GS, start=r"^data = ", end=None, **_MASK),
+    dict(name="dictrb_done_mask", qual=_DGS, start=r"^return DictReplayBufferSamples", end=None, **_MASK),
+    # add(): slot and source of every write
+    _slot("rb_add_obs_slot", _RB, r"^self\.observations\[", r"self\.observations", nth=0, of=2),
+    _src("rb_add_obs_src", _RB, r"^self\.observations\[", nth=0, of=2),
+    _slot("rb_memopt_write_index", _RB, r"^self\.observations\[", r"self\.observations", nth=1, of=2),
+    _src("rb_memopt_write_src", _RB, r"^self\.observations\[", nth=1, of=2),
+    _slot("rb_add_next_slot", _RB, r"^self\.next_observations\[", r"self\.next_observations"),
+    _src("rb_add_next_src", _RB, r"^self\.next_observations\["),
+    _slot("rb_add_act_slot", _RB, r"^self\.actions\[", r"self\.actions"), _src("rb_add_act_src", _RB, r"^self\.actions\["),
+    _slot("rb_add_rew_slot", _RB, r"^self\.rewards\[", r"self\.rewards"), _src("rb_add_rew_src", _RB, r"^self\.rewards\["),
+    _slot("rb_add_done_slot", _RB, r"^self\.dones\[", r"self\.dones"), _src("rb_add_done_src", _RB, r"^self\.dones\["),
+    _slot("rb_add_to_slot", _RB, r"^self\.timeouts\[", r"self\.timeouts"),
+    _slot("dictrb_add_obs_slot", _DRB, r"^self\.observations\[key\]\[", r"self\.observations\[key\]"),
+    _slot("dictrb_add_next_slot", _DRB, r"^self\.next_observations\[key\]\[", r"self\.next_observations\[key\]"),
+    _slot("dictrb_add_act_slot", _DRB, r"^self\.actions\[", r"self\.actions"), _src("dictrb_add_act_src", _DRB, r"^self\.actions\["),
+    _slot("dictrb_add_rew_slot", _DRB, r"^self\.rewards\[", r"self\.rewards"), _src("dictrb_add_rew_src", _DRB, r"^self\.rewards\["),
+    _slot("dictrb_add_done_slot", _DRB, r"^self\.dones\[", r"self\.dones"), _src("dictrb_add_done_src", _DRB, r"^self\.dones\["),
+    _slot("dictrb_add_to_slot", _DRB, r"^self\.timeouts\[", r"self\.timeouts"),
+    dict(name="rb_add_memopt_branch", qual=_RB, start=r"^if (not )?self\.optimize_memory_usage", end=None, kind="test",
          inputs=[("memopt", "bool")], subst={"self.optimize_memory_usage": "memopt"}),
-    dict(name="rb_add_timeout_branch", qual="ReplayBuffer.add", start=r"^if (not )?self\.handle_timeout_termination", end=None, kind="test",
+    dict(name="rb_add_timeout_branch", qual=_RB, start=r"^if (not )?self\.handle_timeout_termination", end=None, kind="test",
          inputs=[("hto", "bool")], subst={"self.handle_timeout_termination": "hto"}),
-    dict(name="dictrb_add_timeout_branch", qual="DictReplayBuffer.add", start=r"^if (not )?self\.handle_timeout_termination", end=None, kind="test",
+    dict(name="dictrb_add_timeout_branch", qual=_DRB, start=r"^if (not )?self\.handle_timeout_termination", end=None, kind="test",
          inputs=[("hto", "bool")], subst={"self.handle_timeout_termination": "hto"}),
     # ---- RolloutBuffer / DictRolloutBuffer cursor, reset and get() protocol
     dict(name="rollout_add_cursor", qual="RolloutBuffer.add", **_CUR),
     dict(name="dictrollout_add_cursor", qual="DictRolloutBuffer.add", **_CUR),
-    dict(name="base_reset", qual="BaseBuffer.reset", start=None, end=None, inputs=[],
-         subst={"self.pos": "pos", "self.full": "full"}, outputs=[("pos", "Z"), ("full", "bool")]),
+    dict(name="base_reset", qual="BaseBuffer.reset", start=None, end=None, inputs=[], subst={"self.pos": "pos", "self.full": "full"}, outputs=[("pos", "Z"), ("full", "bool")]),
     dict(name="rollout_reset_ready", qual="RolloutBuffer.reset", start=r"^self\.generator_ready = ", end=None, kind="expr", ret="bool", inputs=[]),
     dict(name="dictrollout_reset_ready", qual="DictRolloutBuffer.reset", start=r"^self\.generator_ready = ", end=None, kind="expr", ret="bool", inputs=[]),
     dict(name="rollout_get_requires", qual="RolloutBuffer.get", start=r"^assert ", end=None, kind="subexpr", pick=r"(not )?self\.full", ret="bool",
